@@ -168,7 +168,7 @@ static J gen_list_lengths(Chooser &ch)
   none.grains = false; none.velocity = false;
   g::FM m;
   const std::array<double, 2> ctr = g::gen_centre(ch, fr);
-  const int which = static_cast<int>(ch.range(0, 9));
+  const int which = static_cast<int>(ch.range(0, 10));
   J feat;
   std::string what, sig;
   auto drop_or_add = [&](J &arr) { if (arr.size() > 1 && ch.flip()) arr.a.pop_back(); else arr.a.push_back(arr.a.empty() ? J(1.0) : arr.a.back()); };
@@ -248,6 +248,20 @@ static J gen_list_lengths(Chooser &ch)
       drop_or_add(gm[ch.pick<std::string>({"basis Euler angles z-x-z", "grain sizes", "normalize grain sizes", "deflections"})]);
       feat["grains models"] = J::arr({gm});
       what = type + " random deflected grains: per-composition lists differ in length"; sig = "random-grains-lists";
+    }
+  else if (which == 10)
+    {
+      // a section entry for a coordinate the feature does not have
+      const std::string type = ch.flip() ? "subducting plate" : "fault";
+      feat = g::line_feature(ch, fr, none, type, ctr, 0, m);
+      const int n = static_cast<int>(feat.at("coordinates").size());
+      J sec = J::obj();
+      sec["coordinate"] = n + static_cast<int>(ch.pick<int>({0, 0, 1, 5}));
+      sec["segments"] = feat.at("segments");
+      J secs = feat.has("sections") ? feat.at("sections") : J::arr();
+      secs.push(sec);
+      feat["sections"] = secs;
+      what = type + ": a section entry names coordinate " + std::to_string(static_cast<int>(sec["coordinate"].num())) + " but there are only " + std::to_string(n) + " coordinates"; sig = "section-for-missing-coordinate";
     }
   else
     {
